@@ -1072,7 +1072,11 @@ def check_state_writers(ctx: Ctx):
         classes += r.all_subclasses()
     # the aggregator is shared by worker threads and re-created in worker processes: whatever it
     # would remember between calls is per process and stale in every other one
-    classes.append(prog.cls("panoptica_aggregator:Panoptica_Aggregator"))
+    agg_ = prog.cls("panoptica_aggregator:Panoptica_Aggregator")
+    classes.append(agg_)
+    # ... and so are the helper objects it keeps (classes of its own module that it instantiates)
+    made = {(dotted(c_.func) or "").split(".")[-1] for m_ in agg_.methods.values() for c_ in ast.walk(m_.node) if isinstance(c_, ast.Call)}
+    classes += [k for k in prog.classes.values() if k.module is agg_.module and k is not agg_ and k.name in made and k not in classes]
     n = 0
     agg_cache = False
     def _scratch_of(m):
@@ -1104,10 +1108,23 @@ def check_state_writers(ctx: Ctx):
             if m.name == "__init__" or not m.self_name:
                 continue
             scratch = {a_ for a_, users in class_scratch.items() if m.name in users}
+            # local names for a container the object keeps: `row = self.<attr>` where <attr> is stored on the object or
+            # computed once (cached_property) - a plain property builds its value anew on every read
+            kept_alias = {}
+            for st_ in walk_no_nested(m.node):
+                if isinstance(st_, ast.Assign) and len(st_.targets) == 1 and isinstance(st_.targets[0], ast.Name) and isinstance(st_.value, ast.Attribute) and isinstance(st_.value.value, ast.Name) and st_.value.value.id == m.self_name:
+                    meth = c.lookup(st_.value.attr)
+                    if meth is None or getattr(meth, "is_cached_property", False):
+                        kept_alias[st_.targets[0].id] = st_.value
+            for nm_ in list(kept_alias):
+                if sum(1 for st_ in walk_no_nested(m.node) if isinstance(st_, (ast.Assign, ast.AugAssign, ast.AnnAssign, ast.For)) and any(isinstance(x, ast.Name) and x.id == nm_ and isinstance(x.ctx, ast.Store) for x in ast.walk(st_.targets[0] if isinstance(st_, ast.Assign) else st_.target))) != 1:
+                    del kept_alias[nm_]  # rebound elsewhere: not tracked
             for node in walk_no_nested(m.node):
                 tgts = node.targets if isinstance(node, ast.Assign) else [node.target] if isinstance(node, (ast.AugAssign, ast.AnnAssign)) else []
                 hit = None
                 for t in tgts:
+                    if isinstance(t, ast.Subscript) and isinstance(t.value, ast.Name) and t.value.id in kept_alias:
+                        hit = kept_alias[t.value.id]  # <alias>[key] = ...: an entry of a container the object keeps
                     for x in ast.walk(t):
                         if isinstance(x, ast.Attribute) and isinstance(x.value, ast.Name) and x.value.id == m.self_name and isinstance(x.ctx, ast.Store):
                             hit = x
@@ -1117,6 +1134,8 @@ def check_state_writers(ctx: Ctx):
                         hit = t.value  # self.<table>[key] = ...: an entry of a table the object keeps
                 if isinstance(node, ast.Call) and isinstance(node.func, ast.Attribute) and node.func.attr in ("append", "extend", "update", "clear", "pop", "insert", "remove", "setdefault") and isinstance(node.func.value, ast.Attribute) and isinstance(node.func.value.value, ast.Name) and node.func.value.value.id == m.self_name:
                     hit = node.func.value
+                if isinstance(node, ast.Call) and isinstance(node.func, ast.Attribute) and node.func.attr in ("append", "extend", "update", "clear", "pop", "insert", "remove", "setdefault", "sort", "reverse") and isinstance(node.func.value, ast.Name) and node.func.value.id in kept_alias:
+                    hit = kept_alias[node.func.value.id]
                 if hit is not None and (hit.attr if isinstance(hit, ast.Attribute) and isinstance(hit.value, ast.Name) else None) in scratch:
                     n += 1
                     continue
